@@ -22,3 +22,13 @@ for cfg in ("K1", "K2a", "K2b", "K3", "K4"):
             keys.add(mir._strip_lifetimes(b["key"]))
 json.dump(sorted(keys), open(os.path.join(VERIF, "rules", "known_fns.json"), "w"), indent=0)
 print(len(keys), "functions")
+# with the list just written nothing may be inlined on this tree
+mir._KNOWN[0] = False
+for cfg in ("K1", "K2a", "K2b", "K3", "K4"):
+    try:
+        P = mir.Program(cfg)
+    except Exception as e:
+        print("skip", cfg, e)
+        continue
+    print(cfg, "functions inlined on this tree:", len(P.absorbed))
+    assert not P.absorbed
